@@ -53,6 +53,21 @@ type World struct {
 
 	identYOdd    int // -1 unknown; convention observed for IsYOdd(identity)
 	mutatedSince bool
+
+	// which (byte position, nibble, index 0..15) windows the constant-time
+	// ladders were asked to look up (C19 reach measure)
+	lookupCov [32 * 2 * 16 / 8]byte
+}
+
+// noteLookups records the table windows a scalar drives through the 4-bit
+// constant-time ladders.
+func (w *World) noteLookups(sb []byte) {
+	for i, b := range sb {
+		for h, v := range []int{int(b >> 4), int(b & 0xf)} {
+			bit := (i*2+h)*16 + v
+			w.lookupCov[bit/8] |= 1 << uint(bit%8)
+		}
+	}
 }
 
 func hx(b []byte) string { return kernel.Hex(b) }
@@ -259,6 +274,7 @@ func Run(run *kernel.Run, prop string) {
 	w.checkKeysFull("end-of-history")
 	run.Res.Steps = w.step
 	run.Res.Cfg["weights"] = weights
+	run.Res.Cfg["lookup_cov"] = kernel.Hex(w.lookupCov[:])
 }
 
 type opKind struct {
